@@ -1223,3 +1223,39 @@ def m_ordering_then(ctx):
         call_callable(c2, f, [], "tw")
         # the closure runs in a copy: it may not run at all, and its (pure) result is any Ordering
     return ctx.top_ret()
+
+
+@M.reg("<alloc::vec::Vec<T, A> as core::convert::AsRef<[T]>>::as_ref", "<alloc::vec::Vec<T, A> as core::convert::AsRef<alloc::vec::Vec<T, A>>>::as_ref", "<[T] as core::convert::AsRef<[T]>>::as_ref", "<str as core::convert::AsRef<[u8]>>::as_ref", "<alloc::string::String as core::convert::AsRef<str>>::as_ref", "<alloc::string::String as core::convert::AsRef<[u8]>>::as_ref", "<str as core::convert::AsRef<str>>::as_ref")
+def m_as_ref_view(ctx):
+    return M.exact["core::str::<impl str>::as_bytes"](ctx)
+
+
+@M.reg_re(r"^core::num::<impl i(\d+|size)>::checked_abs$")
+def m_checked_abs(ctx):
+    """None exactly for the minimum value; otherwise Some(|x|)."""
+    S, I = ctx.S, ctx.I
+    a = scalar_arg(ctx, ctx.args[0])
+    if a is None:
+        return ctx.top_ret()
+    r = I.st.range(a)
+    iv = S.ivof(a)
+    lo = r[0]
+    can_none = D.contains(iv, lo)
+    rest = D.remove_point(iv, lo)
+    vs, w = {}, {}
+    if can_none:
+        vs["None"] = ()
+        w["None"] = Delta({a: D.point(lo)})
+    if rest:
+        pos = D.meet(rest, D.rng(0, r[1]))
+        negs = D.meet(rest, D.rng(lo + 1, -1))
+        absiv = D.join(pos, D.neg(negs)) if (pos and negs) else (pos if pos else D.neg(negs))
+        out = ctx.fresh("cabs", (0, r[1]), absiv)
+        S.absd[out] = a
+        vs["Some"] = (Scalar(out),)
+        w["Some"] = Delta({a: rest})
+    return Enum(OPT, vs, w)
+
+
+# (the generic "total integer function" pattern above would match first: put the precise model in front)
+M.patterns.insert(0, (__import__("re").compile(r"^core::num::<impl i(\d+|size)>::checked_abs$"), m_checked_abs))
